@@ -11,14 +11,17 @@ import (
 )
 
 func (u *UseCase) DeleteOld(ctx context.Context) error {
+	sequence.LockHorizon()
 	tx, err := u.txRepo.Oldest(ctx)
 	if errors.Is(err, fs_db.ErrTxNotFound) {
 		tx = model.Transaction{
 			Seq: sequence.Next(),
 		}
 	} else if err != nil {
+		sequence.UnlockHorizon()
 		return fmt.Errorf("tx repo oldest: %w", err)
 	}
+	sequence.UnlockHorizon()
 
 	files := u.core.DeleteOld(ctx, model.MainTxId, tx.Seq)
 	err = u.DeleteFiles(ctx, files)
